@@ -17,7 +17,8 @@ type refEntry struct {
 }
 
 func c15Clean(name string) []string {
-	// well-formed names: relative or with a leading slash / "./", no ".." (assumed by the harness)
+	// well-formed names: relative or with a leading slash / "./", no ".." segment (names that merely
+	// start with two dots are ordinary names)
 	var out []string
 	for _, s := range refComps(name) {
 		if s == "" || s == "." {
@@ -52,7 +53,7 @@ func c15Join(s []string) string {
 }
 
 // c15Universe: entry names are spellings of paths over a tiny universe {a, b, a/b, a/c}.
-var c15Names = []string{"a", "a/", "./a", "/a", "b", "a/b", "a//b", "./a/b", "a/c", "/a/b/"}
+var c15Names = []string{"a", "a/", "./a", "/a", "b", "a/b", "a//b", "./a/b", "a/c", "/a/b/", "..a", "a/..b"}
 
 // HarnessC15: K entries over the path universe; kinds file / dir / symlink (target in-tree:
 // a sibling name) / unsupported; arbitrary permissions and times.
@@ -75,8 +76,11 @@ func HarnessC15() {
 			if len(e.Name) > 0 && e.Name[len(e.Name)-1] == '/' {
 				verif.Assume(false) // a regular entry named like a directory is not well-formed
 			}
-			if verif.Bool("body") {
-				e.Body = "B" + string(rune('0'+i))
+			switch verif.Choose("body", 3) { // later entries may be shorter or longer than earlier ones
+			case 1:
+				e.Body = "s" + string(rune('0'+i))
+			case 2:
+				e.Body = "a-longer-body-" + string(rune('0'+i))
 			}
 			r.kind, r.data = envFile, e.Body
 		case 1:
